@@ -335,13 +335,69 @@ def run(ctx):
                     n_ = vals[0] if len(vals) == 1 else n_
                 amount = lin_of(n_, consts)
         want = Lin.atom("self.piece_length").sub(Lin.atom("len(%s)" % arr))
-        ctx.decide("C15.3", hp, amount == want, "align arm zero-extends the short piece by piece_length - len(piece)",
-                   "align arm extends the short piece by %s zero bytes; must be %s" % (amount, want), arm[0])
         rets = [s for s in body if isinstance(s, ast.Return)]
+        whole = None
+        if not ext and len(rets) == 1:
+            # alternative shape: the arm hashes the read buffer itself, whole - correct iff that buffer is piece_length
+            # zero bytes allocated anew for the read that filled it (its tail is then the zero padding)
+            whole = whole_buffer_arm(ctx, hcls, hp, rets[0])
+        if whole is not None:
+            okw, msg = whole
+            if okw is None:
+                ctx.undecided("C15.3", hp, msg, arm[0])
+            else:
+                ctx.decide("C15.3", hp, okw, msg, msg, arm[0])
+            arr = whole_param(hp, rets[0]) or arr
+        else:
+            ctx.decide("C15.3", hp, amount == want, "align arm zero-extends the short piece by piece_length - len(piece)",
+                       "align arm extends the short piece by %s zero bytes; must be %s" % (amount, want), arm[0])
         ok = len(rets) == 1 and norm(rets[0].value) == "sha1(%s).digest()" % arr
         reads_next = any(isinstance(x, ast.Call) and norm(x.func).endswith("next_file") for s in body for x in ast.walk(s))
         ctx.decide("C15.3", hp, ok and not reads_next, "align arm returns the SHA-1 of the zero-extended piece without opening the next file",
                    "align arm does not simply return sha1 of the zero-extended piece", rets[0] if rets else arm[0])
+
+
+def whole_param(hp, ret):
+    v = ret.value
+    if isinstance(v, ast.Call) and isinstance(v.func, ast.Attribute) and v.func.attr == "digest" and isinstance(v.func.value, ast.Call) and v.func.value.args \
+            and isinstance(v.func.value.args[0], ast.Name) and v.func.value.args[0].id in hp.params:
+        return v.func.value.args[0].id
+    return None
+
+
+def whole_buffer_arm(ctx, hcls, hp, ret):
+    """(verdict, text) for an align arm that hashes a parameter whole; None if the arm does not have that shape."""
+    from tfsa.reach import ReachDefs
+    from .c01 import buffer_info
+    pname = whole_param(hp, ret)
+    if pname is None:
+        return None
+    nx = hcls.methods["__next__"]
+    idx = [p for p in hp.params if p != hp.self_name].index(pname)
+    g = C.cfg_of(nx)
+    rdf = ReachDefs(nx, g)
+    verdicts = []
+    for call in [n for n in own_nodes(nx.node) if isinstance(n, ast.Call) and any(t is hp for t in C.targets_of(ctx, nx, n))]:
+        if idx >= len(call.args) or not isinstance(call.args[idx], ast.Name):
+            return None, "the align arm hashes its parameter %r whole, but the caller passes `%s`" % (pname, norm(call.args[idx]) if idx < len(call.args) else "?")
+        buf = call.args[idx].id
+        reads = [n for n in own_nodes(nx.node) if isinstance(n, ast.Assign) and isinstance(n.value, ast.Call) and isinstance(n.value.func, ast.Attribute) and n.value.func.attr == "readinto"
+                 and n.value.args and isinstance(n.value.args[0], ast.Name) and n.value.args[0].id == buf]
+        if len(reads) != 1:
+            return None, "the buffer handed to the align arm is not filled by exactly one readinto"
+        cap, fresh = buffer_info(ctx, nx, g, rdf, buf, C.stmt_node(ctx, nx, reads[0]))
+        if cap is None:
+            return None, "capacity of the buffer handed to the align arm could not be determined"
+        if cap != "self.piece_length":
+            verdicts.append((False, "align arm hashes the whole read buffer, whose capacity is %s, not the piece length" % cap))
+        elif not fresh:
+            verdicts.append((False, "align arm hashes the whole read buffer, but that buffer is reused between reads: beyond the bytes just read it holds the previous piece, not zero padding"))
+        else:
+            verdicts.append((True, "align arm hashes the whole read buffer = the bytes read followed by zeros up to piece_length (the buffer is allocated anew for every read)"))
+    if not verdicts:
+        return None, "no call of the partial-piece handler found"
+    bad = [v for v in verdicts if not v[0]]
+    return bad[0] if bad else verdicts[0]
 
 
 def eval_gap(body, gap, cell, S, P):
